@@ -249,6 +249,7 @@ func (e *Enc) defaultCall(fr *Frame, key string, args []Val, st *State, rb Term,
 		if strings.HasPrefix(key, p) || strings.HasPrefix(strings.TrimPrefix(strings.TrimPrefix(key, "("), "*"), p) {
 			e.effFree[key] = true
 			e.errKindAssume(key, invoke, e.curCall, args, res, resType, st, rb)
+			e.privSentinelAssume(fr, key, invoke, e.curCall, args, res, resType, st, rb)
 			return res, st, rb
 		}
 	}
@@ -262,6 +263,7 @@ func (e *Enc) defaultCall(fr *Frame, key string, args []Val, st *State, rb Term,
 	if allPure && !inRepo {
 		e.trusted["pure-by-arguments: "+key] = true
 		e.errKindAssume(key, invoke, e.curCall, args, res, resType, st, rb)
+		e.privSentinelAssume(fr, key, invoke, e.curCall, args, res, resType, st, rb)
 		return res, st, rb
 	}
 	e.havocked[key] = true
@@ -283,6 +285,7 @@ func (e *Enc) defaultCall(fr *Frame, key string, args []Val, st *State, rb Term,
 	st = e.Havoc(st, mod)
 	e.assumeNotPrivate(res, st)
 	e.errKindAssume(key, invoke, e.curCall, args, res, resType, st, rb)
+	e.privSentinelAssume(fr, key, invoke, e.curCall, args, res, resType, st, rb)
 	return res, st, rb
 }
 
@@ -382,6 +385,7 @@ func (e *Enc) applyContractFV(fr *Frame, ct *Contract, key string, sig *types.Si
 		e.sc.Assert(implies(rb, f))
 	}
 	e.errKindAssume(key, invoke, e.curCall, args, res, resType, post, rb)
+	e.privSentinelAssume(fr, key, invoke, e.curCall, args, res, resType, post, rb)
 	return res, post, rb
 }
 
